@@ -965,6 +965,25 @@ def check_ts(desc, case, obs, F):
                     F("coiterate-trees", "interval %r: indexes %d,%d expected %d,%d" % (iv, i1, i2, k1, k2))
 
 
+def check_cleared(desc, case, c, F, label):
+    """the null state (index -1): no edges, counts = own sample / tracked status"""
+    N = len(desc["nodes"])
+    smp = sample_ids(desc)
+    tr = set(case.get("tracked") or [])
+    if c["index"] != -1 or c["interval"] != [0, 0]:
+        F("cleared-position", "%s: index %r interval %r" % (label, c["index"], c["interval"]))
+    if any(x != NULL for x in c["parent_array"]) or c["num_edges"] != 0 or any(x != NULL for x in c["edge_array"]):
+        F("cleared-parent", "%s: %r" % (label, c["parent_array"]))
+    if c["sites"] or c["num_sites"] != 0 or c["mutations"]:
+        F("cleared-sites", "%s: null tree lists sites %r" % (label, c["sites"]))
+    if c["num_samples"] != [1 if u in smp else 0 for u in range(N)] + [len(smp)]:
+        F("cleared-num_samples", "%s: %r" % (label, c["num_samples"]))
+    if c["num_tracked"] != [1 if u in tr else 0 for u in range(N)] + [len(tr)]:
+        F("cleared-num_tracked", "%s: null tree num_tracked %r, tracked %r" % (label, c["num_tracked"], sorted(tr)))
+    if c["roots"] != (smp if case["thr"] == 1 else []):
+        F("cleared-roots", "%s: %r" % (label, c["roots"]))
+
+
 def oracle_views(case, obs):
     fails = []
     seen = set()
@@ -978,22 +997,7 @@ def oracle_views(case, obs):
     bps = [2 * b for b in gen_ts.breakpoints(desc)]
     nT = len(bps) - 1
     if "cleared" in obs:
-        c = obs["cleared"]
-        N = len(desc["nodes"])
-        smp = sample_ids(desc)
-        tr = set(case.get("tracked") or [])
-        if c["index"] != -1 or c["interval"] != [0, 0]:
-            F("cleared-position", "index %r interval %r" % (c["index"], c["interval"]))
-        if any(x != NULL for x in c["parent_array"]) or c["num_edges"] != 0 or any(x != NULL for x in c["edge_array"]):
-            F("cleared-parent", "%r" % (c["parent_array"],))
-        if c["sites"] or c["num_sites"] != 0 or c["mutations"]:
-            F("cleared-sites", "null tree lists sites %r" % (c["sites"],))
-        if c["num_samples"] != [1 if u in smp else 0 for u in range(N)] + [len(smp)]:
-            F("cleared-num_samples", "%r" % (c["num_samples"],))
-        if c["num_tracked"] != [1 if u in tr else 0 for u in range(N)] + [len(tr)]:
-            F("cleared-num_tracked", "null tree num_tracked %r, tracked %r" % (c["num_tracked"], sorted(tr)))
-        if c["roots"] != (smp if case["thr"] == 1 else []):
-            F("cleared-roots", "%r" % (c["roots"],))
+        check_cleared(desc, case, obs["cleared"], F, "cleared")
     for path, trees in obs["paths"].items():
         if path in ("trees", "aslist", "at_index", "at_index_neg"):
             exp_idx = list(range(nT))
@@ -1152,6 +1156,232 @@ class ViewsBig(ViewsBase):
             case["other"] = None
             case["paths"] = ["trees", rng.choice(["reversed", "at_index", "aslist"])]
             yield case
+
+
+# ----------------------------------------------------------------------------------
+# navigation histories that CONTINUE after a seek: the full tree state after every step
+# ----------------------------------------------------------------------------------
+
+def clip_desc(desc, a, b):
+    """keep only the part of every edge inside [a, b): leading gap [0, a), trailing gap [b, L)"""
+    edges = []
+    for l, r, p, c, m in desc["edges"]:
+        l2, r2 = max(l, a), min(r, b)
+        if l2 < r2:
+            edges.append([l2, r2, p, c, m])
+    return dict(desc, edges=edges, sites=[], mutations=[])
+
+
+def nav_expected_index(nT, bps2, idx, op):
+    """index after applying op to a tree at index idx (-1 = null); None = the call must raise"""
+    kind = op[0]
+    if kind == "next":
+        return 0 if idx == -1 else (idx + 1 if idx + 1 < nT else -1)
+    if kind == "prev":
+        return nT - 1 if idx == -1 else idx - 1
+    if kind == "first":
+        return 0
+    if kind == "last":
+        return nT - 1
+    if kind == "clear":
+        return -1
+    if kind == "seek":
+        h = op[1]
+        if not 0 <= h < bps2[-1]:
+            return None
+        return max(i for i in range(nT) if bps2[i] <= h)
+    if kind == "seek_index":
+        k = op[1]
+        if k < 0:
+            k += nT
+        return k if 0 <= k < nT else None
+    raise ValueError(kind)
+
+
+def observe_nav(case):
+    import tskit
+    desc = case["desc"]
+    inv = lattice(desc)
+    ts = gen_ts.build_tables(desc).tree_sequence()
+    kw = tree_kwargs(case)
+    s = desc.get("scale", 1)
+    o = {"num_trees": int(ts.num_trees), "samples": _ints(ts.samples()),
+         "edges": [[inv.get(float(l), repr(l)), inv.get(float(r), repr(r)), int(p), int(c)]
+                   for l, r, p, c in zip(ts.edges_left, ts.edges_right, ts.edges_parent, ts.edges_child)],
+         "hists": []}
+    for ops in case["hists"]:
+        t = tskit.Tree(ts, **kw)
+        steps = []
+        for op in ops:
+            exc = None
+            try:
+                if op[0] == "seek":
+                    h = op[1]
+                    t.seek((h / 2 if h % 2 else h // 2) * s)
+                elif op[0] == "seek_index":
+                    t.seek_index(op[1])
+                else:
+                    getattr(t, op[0])()
+            except Exception as e:
+                exc = type(e).__name__
+            steps.append([exc, obs_tree(ts, t, inv, full=False)])
+        o["hists"].append(steps)
+    return o
+
+
+def oracle_nav(case, obs):
+    fails, seen = [], set()
+
+    def F(key, msg):
+        if key not in seen and len(fails) < 8:
+            seen.add(key)
+            fails.append((key, msg))
+    desc = case["desc"]
+    bps2 = [2 * b for b in gen_ts.breakpoints(desc)]
+    nT = len(bps2) - 1
+    if obs["num_trees"] != nT:
+        F("num_trees", "%d vs %d" % (obs["num_trees"], nT))
+        return fails
+    for ops, steps in zip(case["hists"], obs["hists"]):
+        idx = -1
+        for j, (op, (exc, tobs)) in enumerate(zip(ops, steps)):
+            label = "history %r step %d" % (ops[:j + 1], j)
+            exp = nav_expected_index(nT, bps2, idx, op)
+            if exp is None:
+                if exc is None:
+                    F("nav-no-error", "%s: out-of-range %r accepted" % (label, op))
+                exp = idx                      # a rejected call leaves the tree where it was
+            elif exc is not None:
+                F("nav-exception", "%s: %s" % (label, exc))
+                break
+            idx = exp
+            if tobs["index"] != idx:
+                F("nav-index", "%s: tree index %d, expected %d" % (label, tobs["index"], idx))
+                break
+            if idx == -1:
+                check_cleared(desc, case, tobs, lambda k, m: F("nav-" + k, m), label)
+            else:
+                check_tree(desc, case, tobs, obs, lambda k, m: F("nav-" + k, m), label)
+            if fails:
+                break
+    return fails
+
+
+def gap_desc(rng, max_nodes=7):
+    """a random description whose edges are confined to [a, b): long edge-less ends"""
+    L = rng.choice([4, 6, 8, 10])
+    d = gen_ts.random_desc(rng, max_nodes=max_nodes, max_L=L, max_sites=0, metadata=False,
+                           individuals=False, populations=False,
+                           p_gap=rng.choice([0.0, 0.2]), p_root=rng.choice([0.05, 0.3]))
+    L = d["L"]
+    shape = rng.choice(["trail_long", "lead_long", "both", "trail_short", "lead_short", "none"])
+    a, b = 0, L
+    if shape in ("trail_long", "both"):
+        b = rng.randrange(1, max(2, L // 2 + 1))
+    elif shape == "trail_short":
+        b = rng.randrange(max(1, L // 2), L + 1)
+    if shape in ("lead_long", "both"):
+        a = rng.randrange(L - L // 2 - 1 if L > 2 else 0, L)
+        if shape == "both":
+            a, b = (0, L) if L < 3 else sorted(rng.sample(range(0, L + 1), 2))
+    elif shape == "lead_short":
+        a = rng.randrange(0, L // 2 + 1)
+    if a >= b:
+        a, b = 0, max(1, b)
+    return clip_desc(d, a, b), a, b
+
+
+def rand_history(rng, L, nT, a, b):
+    hs = sorted({h for h in (2 * a, 2 * a - 1, 2 * a + 1, 2 * b, 2 * b - 1, 2 * b + 1, L, L - 1, L + 1, 0, 2 * L - 1)
+                 if 0 <= h < 2 * L})
+
+    def target():
+        return rng.choice(hs) if rng.random() < 0.7 else rng.randrange(0, 2 * L)
+
+    def op(first):
+        r = rng.random()
+        if r < (0.45 if first else 0.22):
+            return ["seek", target()]
+        if r < (0.6 if first else 0.3):
+            return ["seek_index", rng.randrange(-nT, nT)]
+        if r < (0.8 if first else 0.62):
+            return ["next"]
+        if r < (0.95 if first else 0.94):
+            return ["prev"]
+        return [rng.choice(["first", "last", "clear"])]
+    return [op(True)] + [op(False) for _ in range(rng.randrange(1, 6))]
+
+
+class NavHist(Family):
+    """Fresh Tree, then seek / seek_index / first / last / next / prev / clear in any order; the
+    complete tree state after EVERY step equals the definition for the tree at the expected index
+    (or the null state).  Tree sequences with edge-less ends covering more than half of L."""
+    name = "nav_hist"
+    timeout = 60.0
+    workers = 6
+
+    def generate(self, rng, tier):
+        # exhaustive small scope: edges confined to [a, b), every seek target, two further steps
+        for L in ([4, 5] if tier == "quick" else [4, 5, 6, 7]):
+            for a in range(0, L):
+                for b in range(a + 1, L + 1):
+                    m = (a + b) // 2
+                    nodes = [[1, 0, NULL, NULL, ""], [1, 0, NULL, NULL, ""], [0, 1, NULL, NULL, ""], [0, 2, NULL, NULL, ""]]
+                    edges = [[a, b, 2, 0, ""]]
+                    if m > a:
+                        edges += [[a, m, 2, 1, ""], [m, b, 3, 1, ""], [m, b, 3, 2, ""]]
+                    else:
+                        edges += [[a, b, 2, 1, ""]]
+                    desc = mk_desc(L, [nd[1] for nd in nodes], [nd[0] for nd in nodes], edges,
+                                   scale=rng.choice([1, 0.5, 1 / 3]))
+                    nT = len(gen_ts.breakpoints(desc)) - 1
+                    firsts = [["seek", h] for h in range(0, 2 * L)] + [["seek_index", k] for k in range(-nT, nT)] + \
+                             [["next"], ["prev"]]
+                    seconds = [["next"], ["prev"], ["seek", 0], ["seek", 2 * L - 1], ["seek", L], ["seek", L - 1]]
+                    hists = [[f, s2, t3] for f in firsts for s2 in seconds for t3 in (["prev"], ["next"])]
+                    if tier == "quick":
+                        hists = rng.sample(hists, min(len(hists), 160))
+                    yield {"desc": desc, "sample_lists": rng.random() < 0.5, "thr": rng.choice([1, 2]),
+                           "tracked": [0] if rng.random() < 0.5 else None, "hists": hists, "gap": [a, b]}
+        n = 500 if tier == "quick" else 6000
+        for i in range(n):
+            desc, a, b = gap_desc(rng)
+            nT = len(gen_ts.breakpoints(desc)) - 1
+            case = dict(rand_opts(rng, desc), desc=desc, gap=[a, b])
+            case["hists"] = [rand_history(rng, desc["L"], nT, a, b) for _ in range(6)]
+            yield case
+
+    def observe(self, case):
+        return observe_nav(case)
+
+    def oracle(self, case, obs):
+        return oracle_nav(case, obs)
+
+    def nontrivial(self, case, obs):
+        return len(case["desc"]["edges"]) > 0
+
+    def describe(self, case, obs):
+        d = case["desc"]
+        a, b = case["gap"]
+        L = d["L"]
+        return {"trees": obs.get("num_trees"), "lead_gap_gt_half": 2 * a > L, "trail_gap_gt_half": 2 * (L - b) > L,
+                "hists": min(len(case["hists"]), 10)}
+
+    def shrink(self, case):
+        for i in range(len(case["hists"])):
+            yield dict(case, hists=[case["hists"][i]])
+        if len(case["hists"]) == 1:
+            h = case["hists"][0]
+            for i in range(len(h)):
+                if len(h) > 1:
+                    yield dict(case, hists=[h[:i] + h[i + 1:]])
+        d = case["desc"]
+        for i in range(len(d["edges"])):
+            yield dict(case, desc=dict(d, edges=d["edges"][:i] + d["edges"][i + 1:]))
+        if case.get("tracked"):
+            yield dict(case, tracked=None)
+        if case["sample_lists"]:
+            yield dict(case, sample_lists=False)
 
 
 # ----------------------------------------------------------------------------------
@@ -1451,6 +1681,177 @@ class SweepBase(Family):
             yield dict(case, thr=1)
 
 
+# ----------------------------------------------------------------------------------
+# navigation histories against C01.NavModel: the whole tree state after every step
+# ----------------------------------------------------------------------------------
+
+OPCODE = {"next": 0, "prev": 1, "first": 2, "last": 3, "clear": 4, "seek": 5, "seek_index": 6}
+
+
+def observe_navmodel(case):
+    import tskit
+    desc = case["desc"]
+    inv = lattice(desc)
+    ts = gen_ts.build_tables(desc).tree_sequence()
+    kw = tree_kwargs(case)
+    s = desc.get("scale", 1)
+    edges = [[inv[float(l)], inv[float(r)], int(p), int(c)]
+             for l, r, p, c in zip(ts.edges_left, ts.edges_right, ts.edges_parent, ts.edges_child)]
+    out = []
+    for ops in case["hists"]:
+        t = tskit.Tree(ts, **kw)
+        steps = []
+        for op in ops:
+            exc = 0
+            try:
+                if op[0] == "seek":
+                    h = op[1]
+                    t.seek((h / 2 if h % 2 else h // 2) * s)
+                elif op[0] == "seek_index":
+                    t.seek_index(op[1])
+                else:
+                    getattr(t, op[0])()
+            except (ValueError, IndexError):
+                exc = 1
+            steps.append([[exc]] + impl_tree_obs(ts, t, inv, case["sample_lists"], False))
+        out.append(steps)
+    return {"edges": edges, "num_trees": int(ts.num_trees), "obs": out}
+
+
+class NavModelBase(Family):
+    """tskit.Tree driven through a history of next / prev / first / last / clear / seek /
+    seek_index; after every step index, interval, num_edges, the quintuply linked arrays, edge
+    array, counts and sample lists equal those of C01.NavModel (whose bookmarks decide what
+    the following step removes and inserts)."""
+    prelude = "From TskVerif Require Import Base.Common C01.Model C01.NavModel.\nOpen Scope Z_scope."
+    timeout = 60.0
+    workers = 8
+    shard = 100
+    coq_timeout = 1200
+
+    def observe(self, case):
+        return observe_navmodel(case)
+
+    def oracle(self, case, obs):
+        # index and parent array by definition (so that a model disagreement can be attributed)
+        out = []
+        desc = case["desc"]
+        bps2 = [2 * b for b in gen_ts.breakpoints(desc)]
+        nT = len(bps2) - 1
+        for ops, steps in zip(case["hists"], obs["obs"]):
+            idx = -1
+            for j, (op, st) in enumerate(zip(ops, steps)):
+                exp = nav_expected_index(nT, bps2, idx, op)
+                if (exp is None) != (st[0][0] == 1):
+                    out.append(("nav-reject", "%r step %d" % (ops, j)))
+                    break
+                idx = idx if exp is None else exp
+                if st[1][0] != idx:
+                    out.append(("nav-index", "%r step %d: %d vs %d" % (ops, j, st[1][0], idx)))
+                    break
+                par = ([NULL] * len(desc["nodes"]) if idx == -1 else
+                       Spec(desc, bps2[idx], case["thr"], case.get("tracked")).par) + [NULL]
+                if st[2] != par:
+                    out.append(("nav-parent", "%r step %d: %r vs %r" % (ops, j, st[2], par)))
+                    break
+            if out:
+                break
+        return out
+
+    def coq_check(self, case, obs):
+        desc = case["desc"]
+        ns = "[" + "; ".join("mkNode %s %s" % (cbool(nd[0] & 1), cz(nd[1])) for nd in desc["nodes"]) + "]"
+        es = "[" + "; ".join("mkEdge %s %s %s %s" % tuple(cz(x) for x in e) for e in obs["edges"]) + "]"
+        o = "(mkOpts %s %s %s)" % (cz(case["thr"]), cbool(case["sample_lists"]), clist(case.get("tracked") or []))
+        hs = "[" + "; ".join("[" + "; ".join("(%s, %s)" % (cz(OPCODE[op[0]]), cz(op[1] if len(op) > 1 else 0))
+                                              for op in ops) + "]" for ops in case["hists"]) + "]"
+        exp = "[" + ";\n ".join(clll(h) for h in obs["obs"]) + "]"
+        return "res_eqb zllll_eqb (model_nav %s %s %s %s %s) %s" % (cz(2 * desc["L"]), ns, es, o, hs, exp)
+
+    def nontrivial(self, case, obs):
+        return len(case["desc"]["edges"]) > 0
+
+    def describe(self, case, obs):
+        d = case["desc"]
+        kinds = sorted({op[0] for ops in case["hists"] for op in ops[1:]})
+        return {"trees": obs.get("num_trees"), "edges": min(len(d["edges"]), 12), "thr": case["thr"],
+                "sample_lists": case["sample_lists"], "tracked": bool(case.get("tracked")),
+                "first_ops": sorted({ops[0][0] for ops in case["hists"]}), "later_ops": kinds}
+
+    def shrink(self, case):
+        for i in range(len(case["hists"])):
+            if len(case["hists"]) > 1:
+                yield dict(case, hists=[case["hists"][i]])
+        if len(case["hists"]) == 1:
+            h = case["hists"][0]
+            for i in range(len(h)):
+                if len(h) > 1:
+                    yield dict(case, hists=[h[:i] + h[i + 1:]])
+        d = case["desc"]
+        for i in range(len(d["edges"])):
+            yield dict(case, desc=dict(d, edges=d["edges"][:i] + d["edges"][i + 1:]))
+        if case.get("tracked"):
+            yield dict(case, tracked=None)
+        if case["sample_lists"]:
+            yield dict(case, sample_lists=False)
+        if case["thr"] != 1:
+            yield dict(case, thr=1)
+
+
+def all_first_ops(L, nT):
+    return [["seek", h] for h in range(0, 2 * L)] + [["seek_index", k] for k in range(-nT, nT)] + \
+           [["next"], ["prev"], ["first"], ["last"]]
+
+
+class NavModelTiny(NavModelBase):
+    """every tiny table x every first operation from a fresh tree x sampled continuations"""
+    name = "nav_model_tiny"
+
+    def generate(self, rng, tier):
+        scopes = [(2, 2), (3, 2), (3, 3)] if tier == "quick" else [(2, 3), (3, 3), (4, 2), (4, 3)]
+        budget = 300 if tier == "quick" else 3000
+        allc = [(n, L, tv, edges) for n, L in scopes for tv, edges in tiny_descs(n, L)]
+        keep = allc if len(allc) <= budget else rng.sample(allc, budget)
+        conts = [["next"], ["prev"], ["first"], ["last"], ["clear"]]
+        for n, L, tv, edges in keep:
+            flags = tuple(1 if rng.random() < 0.75 else 0 for _ in range(n))
+            edges = list(edges)
+            rng.shuffle(edges)
+            # dyadic scales only: the distances of tsk_tree_seek_linear are then exact in doubles,
+            # as they are in the model (with 1/3 a tie can round either way and the walk, hence
+            # the sibling order, differs)
+            desc = mk_desc(L, tv, flags, edges, scale=rng.choice([1, 0.5, 0.25]))
+            nT = len(gen_ts.breakpoints(desc)) - 1
+            s = sample_ids(desc)
+            hists = []
+            for f in all_first_ops(L, nT) + [["seek", 2 * L], ["seek", -1], ["seek_index", nT], ["seek_index", -nT - 1]]:
+                h = [f]
+                for _ in range(rng.randrange(1, 4)):
+                    r = rng.random()
+                    h.append(["seek", rng.randrange(0, 2 * L)] if r < 0.25 else
+                             ["seek_index", rng.randrange(-nT, nT)] if r < 0.35 else rng.choice(conts[:2]) if r < 0.85
+                             else rng.choice(conts))
+                hists.append(h)
+            yield {"desc": desc, "sample_lists": rng.random() < 0.5, "thr": rng.choice([1, 1, 2, 3]),
+                   "tracked": sorted(rng.sample(s, rng.randrange(0, len(s) + 1))) if rng.random() < 0.6 else None,
+                   "hists": hists}
+
+
+class NavModelRand(NavModelBase):
+    """random tables, a share with edge-less ends covering more than half of L"""
+    name = "nav_model_rand"
+
+    def generate(self, rng, tier):
+        n = 400 if tier == "quick" else 4000
+        for i in range(n):
+            desc, a, b = gap_desc(rng, max_nodes=rng.choice([4, 6, 8]))
+            desc = dict(desc, scale=rng.choice([1, 0.5, 0.25, 2]))
+            nT = len(gen_ts.breakpoints(desc)) - 1
+            case = dict(rand_opts(rng, desc), desc=desc)
+            case["hists"] = [rand_history(rng, desc["L"], nT, a, b) for _ in range(5)]
+            yield case
+
+
 class SweepTiny(SweepBase):
     name = "sweep_tiny"
 
@@ -1588,7 +1989,7 @@ class PyViewsRand(PyViewsBase):
             yield case
 
 
-FAMILIES = [ViewsTiny, ViewsRand, ViewsBig, Coiterate, SweepTiny, SweepRand, PyViewsTiny, PyViewsRand]
+FAMILIES = [ViewsTiny, ViewsRand, ViewsBig, NavHist, Coiterate, SweepTiny, SweepRand, NavModelTiny, NavModelRand, PyViewsTiny, PyViewsRand]
 
 
 NOT_COVERED = [
